@@ -5,6 +5,7 @@ mod sess;
 mod refm;
 mod genprog;
 mod alloc;
+mod corpus;
 
 #[global_allocator]
 static GLOBAL: alloc::Counting = alloc::Counting;
